@@ -111,7 +111,9 @@ Definition call_samegt (x y : call) : bool :=
 Definition geno_samegt (x y : geno) : bool :=
   list_eqb Z.eqb (g_samples x) (g_samples y)
   && list_eqb variant_eqb (g_variants x) (g_variants y)
-  && list_eqb (list_eqb call_samegt) (g_rows x) (g_rows y).
+  && (list_eqb (list_eqb call_samegt) (g_rows x) (g_rows y)
+      (* without a sample there is no call to compare (VCF: shape (0, 0, 0), PGEN: (0, p, 3)) *)
+      || (is_nil (g_samples x) && forallb is_nil (g_rows x) && forallb is_nil (g_rows y))).
 
 (* region bounds select by REF overlap in htslib and by position in the PGEN
    reader: compared only when no REF allele is longer than one base, or the
